@@ -2,6 +2,8 @@
 
      c07      <driver> <state> <on_close> <second> [<user>]
      c07old   <driver> <state> <on_close> <second> [<user>]       (the original code, cc33fde)
+     c07prefix <driver> <state> <on_close> <second> [<user>]      (before e29178e: sendRPC's poller)
+     c07system <on_close> <second> / c07prefixsystem ...          (System transport's fd field)
         -> the set of final outcomes the model allows, i.e. the observations of its quiescent
            reachable states (nobody can move any more), sorted, separated by a `|` field:
              returned=<bool> closed=<bool> leak=<n>       or       panic=<kind>
@@ -77,6 +79,11 @@ Definition label_name (l : label) : bytes :=
   | L_oncread_send_errs => bs "oncread.send_errs"
   | L_sys_load_fd => bs "sysread.load_fd"
   | L_sys_fd_nil => bs "sysclose.fd_nil"
+  | L_sys_rfd_lock => bs "sysread.fd_lock"
+  | L_sys_rfd_unlock => bs "sysread.fd_unlock"
+  | L_sys_wfd_lock => bs "sysclose.fd_lock"
+  | L_sys_wfd_unlock => bs "sysclose.fd_unlock"
+  | L_sys_fd_close => bs "sysclose.fd_close"
   end.
 
 Fixpoint label_of_name_in (n : bytes) (ls : list label) : option label :=
@@ -214,12 +221,16 @@ Definition watched : list tid := [T_READER; T_USER; T_RPC; T_POLLER].
 Definition old_watched : list tid := [T_READER; T_USER; T_SENDER1; T_SENDER2].
 Definition closer_tids : list tid := [T_CLOSER1; T_CLOSER2].
 
-Definition run_outcomes (old : bool) (fs : list bytes) : list bytes :=
+(* which code: 0 = current, 1 = original (cc33fde), 2 = before the repairs e29178e / 985cf8a *)
+Definition run_outcomes_v (v : nat) (fs : list bytes) : list bytes :=
   match parse_scenario fs with
   | None => [bs "bad-input"]
   | Some sc =>
-      let r := if old then outcomes (old_sys_of sc) old_watched closer_tids
-               else outcomes (sys_of sc) watched closer_tids in
+      let r := match v with
+               | 1 => outcomes (old_sys_of sc) old_watched closer_tids
+               | 2 => outcomes (prefix_sys_of sc) watched closer_tids
+               | _ => outcomes (sys_of sc) watched closer_tids
+               end in
       match r with
       | Some l => emit_outcomes l
       | None => [bs "incomplete"]
@@ -317,11 +328,31 @@ Definition run_thread (fs : list bytes) : list bytes :=
   | _, _ => [bs "bad-input"]
   end.
 
+(* c07system <on_close> <second>: outcomes of the System-transport variant (fd guarded by fdLock);
+   c07prefixsystem: the variant before 985cf8a.  A further field `racy=<n>` counts the reachable
+   states that co-enable conflicting plain accesses of the fd field. *)
+Definition run_system (prefix : bool) (fs : list bytes) : list bytes :=
+  match parse_tc (nthf 1 fs) with
+  | None => [bs "bad-input"]
+  | Some tc =>
+      let sy := if prefix then prefix_system_sys tc (parse_flag (nthf 2 fs))
+                else system_sys tc (parse_flag (nthf 2 fs)) in
+      match outcomes sy [T_READER] closer_tids with
+      | Some l =>
+          emit_outcomes l ++
+          [bs "racy=" ++ print_dec (N.of_nat (length (filter (races sy) (fst (reach sy RUN_FUEL)))))]
+      | None => [bs "incomplete"]
+      end
+  end.
+
 (* the hook: field 0 selects the function *)
 Definition run_c07 (fs : list bytes) : list bytes :=
   let name := nthf 0 fs in
-  if is name "c07" then run_outcomes false fs
-  else if is name "c07old" then run_outcomes true fs
+  if is name "c07" then run_outcomes_v 0 fs
+  else if is name "c07old" then run_outcomes_v 1 fs
+  else if is name "c07prefix" then run_outcomes_v 2 fs
+  else if is name "c07system" then run_system false fs
+  else if is name "c07prefixsystem" then run_system true fs
   else if is name "c07trace" then run_trace false fs
   else if is name "c07oldtrace" then run_trace true fs
   else if is name "c07hooks" then run_hooks false fs
